@@ -93,3 +93,18 @@ Proof. exact gen_transpose_accesses_eq. Qed.
 Theorem C07_source_views_never_claim_alignment :
   forallb negb gen_views_is_aligned = true /\ length gen_views_is_aligned = 16.
 Proof. exact gen_views_never_aligned. Qed.
+
+(** every alignment-requiring load / store intrinsic in the SIMD vector classes (simd_vector_{double,float,int32,
+    int64,complex_double,complex_float}.h), as translated on every run, is guarded by the caller-supplied Aligned flag
+    or lives in aligned_load / aligned_store *)
+Theorem C07_source_simd_aligned_accesses_guarded :
+  forallb (fun e : nat * nat => negb (snd e =? 0)) gen_simd_aligned_sites = true /\ 120 <= List.length gen_simd_aligned_sites.
+Proof. exact gen_simd_aligned_sites_ok. Qed.
+Print Assumptions C07_source_simd_aligned_accesses_guarded.
+
+(** and the masked loads / stores default to the unaligned form in every SIMD vector class *)
+Theorem C07_source_masked_accesses_default_unaligned :
+  forallb (fun e : nat * bool * bool => let '(_, masked, dflt) := e in if masked then negb dflt else true) gen_simd_aligned_defaults = true /\
+  12 <= List.length (filter (fun e : nat * bool * bool => let '(_, masked, _) := e in masked) gen_simd_aligned_defaults).
+Proof. exact gen_simd_aligned_defaults_ok. Qed.
+Print Assumptions C07_source_masked_accesses_default_unaligned.
